@@ -826,7 +826,15 @@ class QvmCpu:
                       expected=a.type,
                       got=b.type)
 
-        result = a.value ** b.value
+        try:
+            result = a.value ** b.value
+        except OverflowError:
+            self.trap(TrapCode.INVALID_CELL_VALUE,
+                      type=a.type, value='overflow')
+        if isinstance(result, complex):
+            # negative base with a fractional exponent
+            self.trap(TrapCode.INVALID_OPERAND_VALUE,
+                      desc='EXP of a negative base to a fractional power')
         self.push(a.type, result)
 
     def _exec_frame(self, params_size, local_vars_size):
@@ -1373,6 +1381,8 @@ class QvmCpu:
             self.trap(TrapCode.INVALID_OPERAND_VALUE)
 
         if char.type == CellType.INTEGER:
+            if char.value < 0 or char.value > 255:
+                self.trap(TrapCode.INVALID_OPERAND_VALUE)
             char = bytes([char.value]).decode('cp437')
         elif char.type != CellType.STRING:
             self.trap(TrapCode.TYPE_MISMATCH,
